@@ -436,6 +436,23 @@ def collect_list(fl, value, node, depth=4):
     if isinstance(v, (ast.List, ast.Tuple)):
         return [(fl.expand(e, node), None) for e in v.elts]
     if isinstance(v, (ast.ListComp, ast.GeneratorExp)) and len(v.generators) == 1:
+        from .flow import fuse_comprehension
+        fused = fuse_comprehension(fl._expand_comp(copy.deepcopy(v), node, 8, ()))
+        if len(fused.generators) == 1:
+            g = fused.generators[0]
+            mapping = {}
+
+            def bind2(t, path):
+                if isinstance(t, ast.Name):
+                    mapping[t.id] = fl._iter_value_expanded(g.iter, path, 8, ())
+                elif isinstance(t, (ast.Tuple, ast.List)):
+                    for i, x in enumerate(t.elts):
+                        bind2(x, path + (i,))
+            bind2(g.target, ())
+            it = iter_base(g.iter)
+            from .flow import _subst_names
+            elt = _subst_names(copy.deepcopy(fused.elt), mapping)
+            return [(elt, it)] if not g.ifs else [(elt, ast.Call(func=ast.Name(id="__filtered__", ctx=ast.Load()), args=[it], keywords=[]))]
         g = v.generators[0]
         mapping = {}
 
